@@ -2,7 +2,9 @@ package run
 
 import (
 	"fmt"
+	"runtime"
 	"strings"
+	"time"
 
 	"github.com/antchfx/xpath"
 	vs "github.com/antchfx/xpath/verifsync"
@@ -167,9 +169,57 @@ func (x *exec) begin(budget, crashAt int) *Env {
 	return e
 }
 
+// runFinalizers runs, as one simulated operation of its own, the finalizers of
+// the package under test that the collector has queued (see the shim).
+func (x *exec) runFinalizers() {
+	if vs.PendingFinalizers() == 0 {
+		return
+	}
+	e := &Env{Budget: MinBudget * 5}
+	x.sim.mainEnv = e
+	mainOpSeq.Add(1)
+	n := 0
+	func() {
+		defer func() {
+			if p := recover(); p != nil {
+				k, v := classifyPanic(p)
+				x.tracef("a finalizer panicked: %s:%s", k, v)
+			}
+		}()
+		n = vs.RunFinalizers()
+	}()
+	x.sim.mainEnv = nil
+	mainOpSeq.Add(1)
+	x.res.Stats.Steps += int64(e.Steps)
+	x.res.Stats.Faults["finalizer-run"] += n
+}
+
+// forceGC is the "gc" fault: a collection here and now, and every finalizer it
+// queues run before the next operation.
+func (x *exec) forceGC() {
+	for round := 0; round < 2; round++ {
+		done := make(chan struct{})
+		sentinel := new([16]byte)
+		runtime.SetFinalizer(sentinel, func(*[16]byte) { close(done) })
+		sentinel = nil
+		runtime.GC()
+		select {
+		case <-done:
+		case <-time.After(200 * time.Millisecond):
+		}
+		x.runFinalizers()
+	}
+	x.res.Stats.Faults["gc"]++
+}
+
 func (x *exec) end(e *Env) {
 	x.sim.mainEnv = nil
 	mainOpSeq.Add(1)
+	defer func() {
+		if x.sim.mode == 'H' && !x.stop {
+			x.runFinalizers()
+		}
+	}()
 	x.res.Stats.Steps += int64(e.Steps)
 	x.res.Stats.NavCalls += int64(e.NavCalls)
 	x.sim.hash = mix(x.sim.hash, e.hash, uint64(e.Steps))
@@ -274,6 +324,7 @@ func budgetFor(solo Outcome) int {
 func (x *exec) installCache() {
 	xpath.VerifResetRegexpCache()
 	vs.ResetPools()
+	vs.DropFinalizers()
 	vs.SetPoolMode(x.s.Cfg.PoolMode)
 	if x.s.Cfg.CacheCap >= 0 {
 		x.cache = newCacheModel(x, x.s.Cfg.CacheCap)
@@ -391,6 +442,9 @@ func (x *exec) histC04() {
 		if x.stop || len(x.res.Viol) > 0 && s.Steps[i].Rep > 0 {
 			break
 		}
+		if s.Steps[i].Rep > 0 && x.res.Stats.Steps > 4*RepStepCap {
+			continue // warm-up repeats cut short
+		}
 		ei := st.E % len(s.Exprs)
 		ex := x.shared[ei]
 		text := s.Exprs[ei].Text
@@ -476,6 +530,14 @@ func (x *exec) histC04() {
 			x.cache = newCacheModel(x, st.N)
 			x.cache.install()
 			x.res.Stats.Faults["cache-swap"]++
+		case "gc":
+			// iterators the caller abandoned are unreachable from now on
+			for _, h := range hs {
+				if h.dead {
+					h.it = nil
+				}
+			}
+			x.forceGC()
 		}
 	}
 	if x.stop {
